@@ -18,10 +18,10 @@ Lines == ndJsonDeserialize("judge.ndjson")
 WellFormed(k) == LET qs == QStates(k)  ts == TermSeq(k)
                      last == IF ts = <<>> THEN 0 ELSE ts[Len(ts)]
                  IN  /\ k # <<>> /\ k[Len(k)] = CR
-                     /\ \A i \in 1..Len(k) : k[i] = CR => (i = 1 \/ qs[i - 1] = 0)
+                     /\ \A i \in 1..Len(k) : k[i] = CR => (BreakInLiterals \/ i = 1 \/ qs[i - 1] = 0)
                      /\ \A i \in (last + 1)..Len(k) : IsWS(k[i])
 
-Verdict(r) == LET want == StmtsOf(r.keys) IN
+Verdict(r) == LET want == StmtsOf(Entered(r.keys)) IN
               [id |-> r.id,
                wellformed |-> WellFormed(r.keys),
                stmts |-> Len(want),
